@@ -28,9 +28,13 @@ import (
 	"math/rand"
 	"os"
 	"regexp"
+	"sort"
 	"strconv"
 	"strings"
+	"sync"
+	"sync/atomic"
 	"testing"
+	"time"
 	"unicode/utf8"
 
 	"github.com/ozontech/file.d/cfg/matchrule"
@@ -44,24 +48,24 @@ import (
 // ---------------------------------------------------------------- records
 
 type c17Leaf struct {
-	K     string   `json:"k"`    // "L"
-	GC    []int    `json:"gc"`   // groups as configured
-	G     []int    `json:"G"`    // groups after Start (VerifyGroupNumbers)
-	Mode  string   `json:"mode"` // mask | replace | cut
-	MC    int      `json:"mc"`
-	Word  []int    `json:"word"`
-	LK    string   `json:"lk"` // s | n  (kind of the leaf before)
-	Val   []int    `json:"val"`
-	CW    []int    `json:"cw"`
-	T     [][]int  `json:"T"`
-	Res   string   `json:"res"` // ok | panic
-	PC    string   `json:"pc"`  // panic class (message without the numbers), "" if none
-	PB    []int    `json:"pb"`  // the numbers of a slice-bounds / index panic message
-	Out   []int    `json:"out"`
-	OK    string   `json:"ok"`   // kind of the leaf afterwards
-	Keys  []string `json:"keys"` // root keys afterwards
-	Met   int      `json:"met"`  // delta of the plugin metric
-	MMet  int      `json:"mmet"` // delta of the mask metric
+	K    string   `json:"k"`    // "L"
+	GC   []int    `json:"gc"`   // groups as configured
+	G    []int    `json:"G"`    // groups after Start (VerifyGroupNumbers)
+	Mode string   `json:"mode"` // mask | replace | cut
+	MC   int      `json:"mc"`
+	Word []int    `json:"word"`
+	LK   string   `json:"lk"` // s | n  (kind of the leaf before)
+	Val  []int    `json:"val"`
+	CW   []int    `json:"cw"`
+	T    [][]int  `json:"T"`
+	Res  string   `json:"res"` // ok | panic
+	PC   string   `json:"pc"`  // panic class (message without the numbers), "" if none
+	PB   []int    `json:"pb"`  // the numbers of a slice-bounds / index panic message
+	Out  []int    `json:"out"`
+	OK   string   `json:"ok"`   // kind of the leaf afterwards
+	Keys []string `json:"keys"` // root keys afterwards
+	Met  int      `json:"met"`  // delta of the plugin metric
+	MMet int      `json:"mmet"` // delta of the mask metric
 }
 
 // c17Info goes to the side file (never seen by TLC): what a human needs to re-run a record
@@ -111,7 +115,16 @@ type c17MaskDesc struct {
 	Proc  [][]string   `json:"proc"`
 	Ign   [][]string   `json:"ign"`
 	Rules []c17RuleSet `json:"rules"`
-	AF    string       `json:"af"` // applied_field of the mask
+	AF    string       `json:"af"`   // applied_field of the mask
+	DoIf  []c17Cond    `json:"doif"` // empty = no do_if; else one condition tree
+}
+
+// c17Cond describes a do_if condition (the subset used here: field equal / not / or / and)
+type c17Cond struct {
+	Op    string    `json:"op"`
+	Field []string  `json:"field"`
+	Vals  [][]int   `json:"vals"`
+	Args  []c17Cond `json:"args"`
 }
 
 type c17Event struct {
@@ -130,18 +143,23 @@ type c17Event struct {
 }
 
 type c17Summary struct {
-	Leaf      int            `json:"leaf"`
-	Unique    int            `json:"unique_records"`
-	Files     []string       `json:"files"`
-	Events    int            `json:"events"`
-	Skipped   int            `json:"skipped_configs"`
-	SkipWhy   map[string]int `json:"skipped_why"`
-	Configs   int            `json:"configs"`
-	Panics    int            `json:"panics"`
-	Matched   int            `json:"matched"`
-	ByFam     map[string]int `json:"by_family"`
-	ExtraKept int            `json:"extended_kept"`
-	ExtraAll  int            `json:"extended_total"`
+	Leaf       int            `json:"leaf"`
+	Stress     int            `json:"stress_runs"`     // executions of Do in the concurrent family
+	StressOut  int            `json:"stress_outcomes"` // distinct (config, event, outcome) records of them
+	StressMs   int            `json:"stress_ms_per_config"`
+	StressDrop int            `json:"stress_runs_not_recorded"` // executions beyond 40 distinct outcomes of one event (0 on correct code)
+	StressAlt  int            `json:"stress_alternations"`      // consecutive Do calls (any instance) with different do_if outcomes
+	Unique     int            `json:"unique_records"`
+	Files      []string       `json:"files"`
+	Events     int            `json:"events"`
+	Skipped    int            `json:"skipped_configs"`
+	SkipWhy    map[string]int `json:"skipped_why"`
+	Configs    int            `json:"configs"`
+	Panics     int            `json:"panics"`
+	Matched    int            `json:"matched"`
+	ByFam      map[string]int `json:"by_family"`
+	ExtraKept  int            `json:"extended_kept"`
+	ExtraAll   int            `json:"extended_total"`
 }
 
 // ---------------------------------------------------------------- helpers
@@ -247,7 +265,7 @@ func c17Flatten(n *insaneJSON.Node, path []string, out []c17FLeaf) []c17FLeaf {
 	switch {
 	case n.IsObject() && len(n.AsFields()) > 0:
 		for _, f := range n.AsFields() {
-			out = c17Flatten(f.AsFieldValue(), append(append([]string{}, path...), f.AsString()), out)
+			out = c17Flatten(f.AsFieldValue(), append(append([]string{}, path...), strings.Clone(f.AsString())), out)
 		}
 	case n.IsArray() && len(n.AsArray()) > 0:
 		for i, e := range n.AsArray() {
@@ -520,6 +538,7 @@ func TestVerifC17(t *testing.T) {
 
 	c17RunLeaves(w, sum, rng, thorough, extraFrac, replay)
 	c17RunEvents(w, sum, rng, thorough, replay)
+	c17RunStress(w, sum, rng, thorough, replay)
 
 	w.closeCur()
 	if err := w.info.Flush(); err != nil {
@@ -718,12 +737,12 @@ func c17RunEvents(w *c17Writer, sum *c17Summary, rng *rand.Rand, thorough bool, 
 	mRep := c17Mode{name: "replace", word: "XY"}
 	mCut := c17Mode{name: "cut", cut: true}
 	pool := []c17MaskT{
-		{re: `(a)`, g: []int{1}, md: mAst},     // 0
-		{re: `(b)`, g: []int{1}, md: mRep},     // 1
-		{re: `a(b)`, g: []int{1}, md: mCut},    // 2
-		{re: `(1)`, g: []int{1}, md: mAst1},    // 3
+		{re: `(a)`, g: []int{1}, md: mAst},       // 0
+		{re: `(b)`, g: []int{1}, md: mRep},       // 1
+		{re: `a(b)`, g: []int{1}, md: mCut},      // 2
+		{re: `(1)`, g: []int{1}, md: mAst1},      // 3
 		{re: `(a)(b)`, g: []int{1, 2}, md: mAst}, // 4
-		{re: `(é+)`, g: []int{0}, md: mAst1},   // 5
+		{re: `(é+)`, g: []int{0}, md: mAst1},     // 5
 	}
 	P := func(s ...string) [][]string {
 		var r [][]string
@@ -888,7 +907,8 @@ func c17RunEvents(w *c17Writer, sum *c17Summary, rng *rand.Rand, thorough bool, 
 		for i := range p.config.Masks {
 			m := &p.config.Masks[i]
 			d := c17MaskDesc{HasRe: m.Re != "", G: append([]int{}, m.Groups...), MC: m.MaxCount,
-				Word: c17Ints([]byte(m.ReplaceWord)), Proc: [][]string{}, Ign: [][]string{}, AF: m.AppliedField}
+				Word: c17Ints([]byte(m.ReplaceWord)), Proc: [][]string{}, Ign: [][]string{}, AF: m.AppliedField,
+				DoIf: []c17Cond{}}
 			switch {
 			case m.CutValues:
 				d.Mode = "cut"
@@ -981,6 +1001,335 @@ func c17RunEvents(w *c17Writer, sum *c17Summary, rng *rand.Rand, thorough bool, 
 				}
 			}
 			sum.Events++
+			w.put(&rec, info)
+		}
+	}
+}
+
+// ---------------------------------------------------------------- stress: instances sharing one config
+
+// A pipeline creates one plugin instance per processor (Factory()) and hands every instance the SAME
+// config object (pipeline/processor.go start()); the processors then run Do concurrently on different
+// events.  This family does the same with masks guarded by do_if: N real instances are started on ONE
+// *Config and run in goroutines for a bounded time over events whose do_if outcomes alternate.  Every Do is
+// an execution; executions of the same (config, event) with the same outcome are logged once (with their
+// number), every distinct outcome becomes an "E" record and is judged by TLC for THAT event alone (masked
+// iff its own do_if holds, marks and metrics likewise).  On correct code there is exactly one outcome per
+// event, so the family cannot raise a false alarm; whether a sharing bug shows depends on the interleaving
+// (detection is probabilistic).
+
+func c17CondEq(field string, vals ...string) (map[string]any, c17Cond) {
+	vs := []any{}
+	c := c17Cond{Op: "equal", Field: strings.Split(field, "."), Vals: [][]int{}, Args: []c17Cond{}}
+	for _, v := range vals {
+		vs = append(vs, v)
+		c.Vals = append(c.Vals, c17Ints([]byte(v)))
+	}
+	return map[string]any{"op": "equal", "field": field, "values": vs}, c
+}
+
+func c17CondLogic(op string, ms []map[string]any, cs []c17Cond) (map[string]any, c17Cond) {
+	ops := []any{}
+	for _, m := range ms {
+		ops = append(ops, m)
+	}
+	return map[string]any{"op": op, "operands": ops},
+		c17Cond{Op: op, Field: []string{}, Vals: [][]int{}, Args: cs}
+}
+
+type c17StressMask struct {
+	mask Mask
+	cond []c17Cond
+	proc [][]string
+	ign  [][]string
+}
+
+type c17Outcome struct {
+	after []c17FLeaf
+	res   string
+	pmsg  string
+	met   int
+	mmet  []int
+	n     int
+}
+
+func c17RunStress(w *c17Writer, sum *c17Summary, rng *rand.Rand, thorough bool, replay map[string]bool) {
+	const instances = 4
+	dur := 350 * time.Millisecond
+	if thorough {
+		dur = 2500 * time.Millisecond
+	}
+	if s := os.Getenv("VERIF_C17_STRESS_MS"); s != "" {
+		ms, _ := strconv.Atoi(s)
+		dur = time.Duration(ms) * time.Millisecond
+	}
+	sum.StressMs = int(dur / time.Millisecond)
+
+	eqS, eqSd := c17CondEq("lvl", "s")
+	eqT, eqTd := c17CondEq("lvl", "t", "tt")
+	notS, notSd := c17CondLogic("not", []map[string]any{eqS}, []c17Cond{eqSd})
+	orST, orSTd := c17CondLogic("or", []map[string]any{eqS, eqT}, []c17Cond{eqSd, eqTd})
+	eqN, eqNd := c17CondEq("b.lvl", "s")
+	rules := matchrule.RuleSets{{Cond: matchrule.CondOr, Rules: []matchrule.Rule{
+		{Values: []string{"a"}, Mode: matchrule.ModePrefix}, {Values: []string{"éa"}, Mode: matchrule.ModeSuffix}}}}
+	P := func(s ...string) [][]string {
+		var r [][]string
+		for _, x := range s {
+			r = append(r, strings.Split(x, "."))
+		}
+		return r
+	}
+	mk := func(re string, g []int, md c17Mode, doif map[string]any) Mask {
+		return Mask{Re: re, Groups: g, MaxCount: md.mc, ReplaceWord: md.word, CutValues: md.cut, DoIfCheckerMap: doif}
+	}
+	mAst, mRep, mCut := c17Mode{name: "mask0"}, c17Mode{name: "replace", word: "XY"}, c17Mode{name: "cut", cut: true}
+	configs := [][]c17StressMask{
+		// one mask guarded by do_if
+		{{mask: mk(`(a)(b)`, []int{1, 2}, mAst, eqS), cond: []c17Cond{eqSd}}},
+		// two masks with opposite conditions
+		{{mask: mk(`(a)`, []int{1}, mAst, eqS), cond: []c17Cond{eqSd}},
+			{mask: mk(`(b)`, []int{1}, mRep, notS), cond: []c17Cond{notSd}}},
+		// do_if (or) + match rules
+		{{mask: func() Mask { m := mk(`(a)`, []int{0}, mRep, orST); m.MatchRules = c17CopyRules(rules); return m }(), cond: []c17Cond{orSTd}}},
+		// do_if on a nested field + the mask's own process list; a second mask without do_if
+		{{mask: func() Mask { m := mk(`a(b)`, []int{1}, mCut, eqN); m.ProcessFields = []string{"b"}; return m }(), cond: []c17Cond{eqNd}, proc: P("b")},
+			{mask: mk(`(é+)`, []int{0}, c17Mode{name: "mask1", mc: 1}, nil), cond: []c17Cond{}}},
+	}
+	docs := []string{
+		`{"lvl":"s","m":"ab","b":{"lvl":"p","c":"abab","d":["éab",12]},"n":21}`,
+		`{"lvl":"p","m":"ab","b":{"lvl":"s","c":"abab","d":["éab",12]},"n":21}`,
+		`{"lvl":"t","m":"éa","b":{"lvl":"s","c":"ba","d":["ab",1]},"n":2}`,
+		`{"m":"ab","b":{"c":"ab","d":["bab"]},"lvl2":"s"}`,
+		`{"lvl":"s","m":"ba","b":{"lvl":"s","c":"éé","d":["a"]}}`,
+		`{"lvl":"tt","m":"aab","b":{"lvl":"x","c":"ab","d":["abé"]}}`,
+	}
+
+	for ci, sm := range configs {
+		if replay != nil {
+			any := false
+			for di := range docs {
+				any = any || replay[fmt.Sprintf("X|%d|%d", ci, di)]
+			}
+			if !any {
+				continue
+			}
+		}
+		conf := &Config{MaskAppliedField: "ap", MaskAppliedValue: "1"}
+		for i := range sm {
+			m := sm[i].mask
+			m.AppliedField, m.AppliedValue = "am"+strconv.Itoa(i), "1"
+			m.MetricName = "c17_mask_metric_" + strconv.Itoa(i)
+			conf.Masks = append(conf.Masks, m)
+		}
+		cb, _ := json.Marshal(conf.Masks)
+		confStr := "shared by " + strconv.Itoa(instances) + " instances: " + string(cb)
+		sum.Configs++
+		// ONE config object, N instances, exactly as the processors of a pipeline get them
+		var shared pipeline.AnyConfig
+		var plugins []*Plugin
+		rejected := ""
+		func() {
+			defer func() {
+				if r := recover(); r != nil {
+					rejected = fmt.Sprint(r)
+				}
+			}()
+			shared = test.NewConfig(conf, nil).(*Config)
+			for i := 0; i < instances; i++ {
+				pl, _ := factory()
+				params := test.NewEmptyActionPluginParams()
+				params.Logger = c17Logger()
+				pl.(*Plugin).Start(shared, params)
+				plugins = append(plugins, pl.(*Plugin))
+			}
+		}()
+		if rejected != "" {
+			sum.Skipped++
+			sum.SkipWhy[rejected]++
+			continue
+		}
+		p0 := plugins[0]
+		var descs []c17MaskDesc
+		for i := range p0.config.Masks {
+			m := &p0.config.Masks[i]
+			d := c17MaskDesc{HasRe: m.Re != "", G: append([]int{}, m.Groups...), MC: m.MaxCount,
+				Word: c17Ints([]byte(m.ReplaceWord)), Proc: [][]string{}, Ign: [][]string{}, AF: m.AppliedField,
+				DoIf: sm[i].cond, Rules: c17RuleDesc(m.MatchRules)}
+			switch {
+			case m.CutValues:
+				d.Mode = "cut"
+			case m.ReplaceWord != "":
+				d.Mode = "replace"
+			default:
+				d.Mode = "mask"
+			}
+			if sm[i].proc != nil {
+				d.Proc = sm[i].proc
+			}
+			if sm[i].ign != nil {
+				d.Ign = sm[i].ign
+			}
+			descs = append(descs, d)
+		}
+		// the "before" half of the records, prepared single-threaded
+		befores := make([][]c17FLeaf, len(docs))
+		root := insaneJSON.Spawn()
+		for di, doc := range docs {
+			if err := root.DecodeString(doc); err != nil {
+				panic(err)
+			}
+			bf := c17Flatten(root.Node, []string{}, nil)
+			for li := range bf {
+				lf := &bf[li]
+				lf.MI = []c17MI{}
+				if lf.T == "o" {
+					continue
+				}
+				vb := make([]byte, len(lf.V))
+				for i, x := range lf.V {
+					vb[i] = byte(x)
+				}
+				for i := range p0.config.Masks {
+					mi := c17MI{Tb: [][]int{}, Mid: []int{}, CWm: []int{}, Tm: [][]int{}}
+					re := p0.config.Masks[i].Re_
+					mi.Tb = c17Table(re, vb)
+					if i == 1 {
+						// the real result of the first mask alone (no do_if, no lists, no rules) on this leaf
+						m0 := sm[0].mask
+						m0.DoIfCheckerMap, m0.ProcessFields, m0.IgnoreFields, m0.MatchRules = nil, nil, nil, nil
+						mp, rej := c17Start(&Config{Masks: []Mask{m0}})
+						if mp == nil {
+							panic("intermediate plugin rejected: " + rej)
+						}
+						r2 := insaneJSON.Spawn()
+						d2 := `{"k":"` + string(vb) + `"}`
+						if lf.T == "n" {
+							d2 = `{"k":` + string(vb) + `}`
+						}
+						if err := r2.DecodeString(d2); err != nil {
+							panic(err)
+						}
+						if _, panicked := c17Do(mp, &pipeline.Event{Root: r2}); panicked {
+							panic("intermediate value unavailable")
+						}
+						mid := append([]byte{}, r2.Dig("k").AsBytes()...)
+						insaneJSON.Release(r2)
+						mi.Mid, mi.CWm, mi.Tm = c17Ints(mid), c17Widths(mid), c17Table(re, mid)
+					}
+					lf.MI = append(lf.MI, mi)
+				}
+			}
+			befores[di] = bf
+		}
+		insaneJSON.Release(root)
+
+		// the concurrent phase
+		outs := make([]map[string]*c17Outcome, instances) // per goroutine: "di|outcome" -> record
+		var wg sync.WaitGroup
+		var lastDoc atomic.Int64
+		var alternations, dropped atomic.Int64
+		const maxOutcomes = 40 // per goroutine and event
+		lastDoc.Store(-1)
+		deadline := time.Now().Add(dur)
+		nm := len(p0.config.Masks)
+		for g := 0; g < instances; g++ {
+			outs[g] = map[string]*c17Outcome{}
+			wg.Add(1)
+			lseed := rng.Int63()
+			go func(g int, pl *Plugin, out map[string]*c17Outcome) {
+				defer wg.Done()
+				r := insaneJSON.Spawn()
+				defer insaneJSON.Release(r)
+				lrng := rand.New(rand.NewSource(lseed))
+				mm0 := make([]int, nm)
+				perDoc := make([]int, len(docs))
+				for n := 0; ; n++ {
+					if n%64 == 0 && time.Now().After(deadline) {
+						return
+					}
+					di := (n + g) % len(docs)
+					if n%7 == 0 {
+						di = lrng.Intn(len(docs))
+					}
+					if err := r.DecodeString(docs[di]); err != nil {
+						panic(err)
+					}
+					m0 := c17Met(pl)
+					for i := range mm0 {
+						mm0[i] = c17MaskMet(pl, i)
+					}
+					if prev := lastDoc.Swap(int64(di)); prev >= 0 && prev != int64(di) {
+						alternations.Add(1)
+					}
+					pmsg, panicked := c17Do(pl, &pipeline.Event{Root: r})
+					var key string
+					oc := &c17Outcome{res: "ok", mmet: make([]int, nm)}
+					if panicked {
+						oc.res, oc.pmsg = "panic", pmsg
+						key = fmt.Sprintf("%d|panic|%s", di, pmsg)
+					} else {
+						oc.met = c17Met(pl) - m0
+						for i := range mm0 {
+							oc.mmet[i] = c17MaskMet(pl, i) - mm0[i]
+						}
+						key = fmt.Sprintf("%d|%s|%d|%v", di, r.EncodeToString(), oc.met, oc.mmet)
+					}
+					if e, ok := out[key]; ok {
+						e.n++
+					} else if perDoc[di] >= maxOutcomes {
+						// correct code has ONE outcome per event; a flood of different wrong outcomes (e.g. shared metric
+						// counters) is cut here -- the ones already kept fail the specification anyway
+						dropped.Add(1)
+					} else {
+						perDoc[di]++
+						oc.n = 1
+						if !panicked {
+							oc.after = c17Flatten(r.Node, []string{}, nil)
+							for li := range oc.after {
+								oc.after[li].MI = []c17MI{}
+							}
+						}
+						out[key] = oc
+					}
+					if panicked {
+						return // the instance may be inconsistent; restarting it would race with the others
+					}
+				}
+			}(g, plugins[g], outs[g])
+		}
+		wg.Wait()
+		sum.StressAlt += int(alternations.Load())
+		sum.StressDrop += int(dropped.Load())
+
+		// one record per distinct (event, outcome)
+		merged := map[string]*c17Outcome{}
+		var order []string
+		for g := range outs {
+			for k, oc := range outs[g] {
+				if e, ok := merged[k]; ok {
+					e.n += oc.n
+				} else {
+					merged[k] = oc
+					order = append(order, k)
+				}
+			}
+		}
+		sort.Strings(order)
+		for _, k := range order {
+			oc := merged[k]
+			di, _ := strconv.Atoi(k[:strings.Index(k, "|")])
+			rec := c17Event{K: "E", GProc: [][]string{}, GIgn: [][]string{}, Masks: descs, AF: "ap",
+				Before: befores[di], After: []c17FLeaf{}, MMet: []int{}, PB: []int{}, Res: oc.res}
+			info := c17Info{Key: fmt.Sprintf("X|%d|%d", ci, di), Src: docs[di], Conf: confStr, Pmsg: oc.pmsg,
+				Fam: fmt.Sprintf("stress: %d executions with this outcome", oc.n)}
+			if oc.res == "panic" {
+				rec.PC, rec.PB = c17PanicClass(oc.pmsg)
+				sum.Panics++
+			} else {
+				rec.After, rec.Met, rec.MMet = oc.after, oc.met, oc.mmet
+			}
+			sum.Stress += oc.n
+			sum.StressOut++
 			w.put(&rec, info)
 		}
 	}
